@@ -234,6 +234,13 @@ def c04(tier):
         # affine clause: the same history run through x -> a*x+b
         for a, b in (([2, 1], [5, 1]), ([1, 2], [-1, 1]), ([3, 1], [0, 1])):
             rel_job(run, "avg-affine-n%d-a%d_%d" % (n, a[0], a[1]), "C04", sc2["cfgs"], alpha, 1, min(L, 6), a, b, "affine")
+    rnd = random.Random(404 + run.seed)
+    st = []
+    for n in ((5, 21) if tier == "quick" else (5, 13, 21, 50)):
+        for cfg in (ema(n), {"k": "Ema", "n": n, "alpha": [1, 1]}, {"k": "Alma", "n": n}, {"k": "Alma", "n": n, "sigma": [3, 1], "offset": [1, 2]}, sma(n)):
+            st.append({"cfg": cfg, "unit": 10, "mode": "window" if cfg["k"] != "Ema" else "machine", "eps": [1, 100000000], "float": "f64",
+                       "xs": shapes(rnd, n, -500, 500, 400 if tier == "quick" else 1500), "k": 1})
+    run.submit(p3_stream_job, "avg-big", "C04", st)
     return run.finish(RULE_DEF + "; for the interval/constant/monotone clauses: states in which the average reports a value")
 
 def rel_job(run, name, prop, cf, alphabet, unit, L, a, b, mode, bitexact=False, cfgs2=None, invonly=False, pow2=0, rescaled=False):
@@ -440,6 +447,16 @@ def c08(tier):
     ch = [with_child(o, {"k": "LnReturn"}) for o in catalogue(2) if o["k"] not in ("Echo", "Constant", "Add", "Subtract", "Multiply", "Divide")]
     run.submit(p1_job, "rdy-chain-LnReturn", "MC_Obs", {"prop": "C08", "cfgs": ch, "alphabet": [1, 2, 4], "unit": 1, "maxlen": 6},
            nontrivial_keys=("ready.yes", "ready.no", "undelivered"), view_label=label)
+    # very long runs (beyond 2^16 updates): a counter that wraps, a warm-up gate that re-closes, an accumulator that overflows
+    rnd = random.Random(808 + run.seed)
+    nlong = 70000 if tier == "quick" else 300000
+    xs = walk(rnd, nlong, 100, 9000, 300)
+    for prof in ("dev", "release"):
+        # every answer around the steps where a narrow counter would wrap (2^8, 2^15, 2^16), every 1000th elsewhere
+        dense = [[250, 290], [32760, 32800], [65530, 65570]]
+        st = [{"cfg": cfg, "unit": 100, "mode": "alive", "eps": [1, 1], "float": "f64", "xs": xs, "k": 1000, "dense": dense}
+              for n in (3, 20) for cfg in catalogue(n, positive=True)]
+        run.submit(p3_stream_job, "rdy-long-%s" % prof, "C08", st, profile=prof)
     return run.finish("every input sequence over the alphabet up to maxlen for every view of the catalogue (debug and release builds) and "
                       "two-level chains; non-trivial = states in which the documentation fixes readiness (yes/no) or the view was delivered nothing")
 
@@ -478,6 +495,12 @@ def c15(tier):
                 if "n" in cfg or cfg["k"] in ("Add", "Subtract", "Multiply"):
                     st.append({"cfg": cfg, "unit": 2, "mode": "nopanic", "eps": [1, 1], "float": "f64", "xs": xs, "k": 1})
         run.submit(p3_stream_job, "np-shapes-%s" % prof, "C15", st, profile=prof)
+    xs = walk(rnd, 70000 if tier == "quick" else 300000, 100, 9000, 300)
+    for prof in ("dev", "release"):
+        st = [{"cfg": cfg, "unit": 100, "mode": "alive", "eps": [1, 1], "float": "f64", "xs": xs, "k": 2000,
+               "dense": [[250, 290], [32760, 32800], [65530, 65570]]}
+              for n in (2, 7) for cfg in catalogue(n, positive=True)]
+        run.submit(p3_stream_job, "np-long-%s" % prof, "C15", st, profile=prof)
     run.submit(apalache_job, "Ind_Count")       # the usize counter of BinaryEntropy never underflows, for all integer inputs and lengths
     # model level: the implementation-shaped machines never "panic" (usize underflow, empty unwrap) for any window 1..64
     for a in ([0], [1], [-1, 2]):
